@@ -12,7 +12,11 @@ def main(argv):
     repo, seed, first, count, step, out = argv[1], int(argv[2]), int(argv[3]), int(argv[4]), int(argv[5]), argv[6]
     # perturb the heap so that object addresses differ between the processes
     hs = os.environ.get('PYTHONHASHSEED', '0')
-    ballast = [bytearray(17 + (i * 7919 + int(hs or 0)) % 4096) for i in range(50 + int(hs or 0) % 977)]
+    try:
+        salt = int(hs)
+    except ValueError:          # PYTHONHASHSEED=random
+        salt = os.getpid()
+    ballast = [bytearray(17 + (i * 7919 + salt) % 4096) for i in range(50 + salt % 977)]
     concepts = attach.load(repo)
     streams = {}
     for k in range(count):
